@@ -32,6 +32,10 @@ impl<'a> Args<'a> {
 		let n = self.usize();
 		(0..n).map(|_| (self.bool(), self.u64())).collect()
 	}
+	fn inputs(&mut self) -> Vec<(u8, u32, bool, u64)> {
+		let n = self.usize();
+		(0..n).map(|_| (self.u8(), self.u32(), self.bool(), self.u64())).collect()
+	}
 	fn opt_u16(&mut self) -> Option<u16> {
 		let d = self.u64();
 		let v = self.u16();
@@ -210,6 +214,24 @@ fn dispatch(name: &str, a: &mut Args) -> String {
 			let (h, best) = (a.u32(), a.u32());
 			let (t, r) = lightning::verif::onchaintx::onchain_event_threshold(h, best);
 			format!("{} {}", t, r as u8)
+		},
+		"get_height_timer" => {
+			let inputs = a.inputs();
+			let (csh, h) = (a.u32(), a.u32());
+			format!("{}", lightning::verif::package::get_height_timer(&inputs, csh, h))
+		},
+		"package_locktime" => {
+			let inputs = a.inputs();
+			let h = a.u32();
+			format!("{}", lightning::verif::package::package_locktime(&inputs, h))
+		},
+		"compute_package_output" => {
+			let inputs = a.inputs();
+			let (w, dust, strat, est, prev) = (a.u64(), a.u64(), a.u8(), a.u32(), a.u64());
+			match lightning::verif::package::compute_package_output(&inputs, w, dust, strat, est, prev) {
+				Some((v, r)) => format!("1 {} {}", v, r),
+				None => "0 0 0".to_string(),
+			}
 		},
 		_ => return format!("error unknown function {}", name),
 	}
